@@ -10,7 +10,17 @@ VARIABLE l
 
 SumTo(chains, k) == LET RECURSIVE S(_) S(j) == IF j = 0 THEN 0 ELSE S(j - 1) + chains[j] IN S(k)
 
+\* kind "wrsig" (C03): a bundle carrying a signatures section, written, read back, written and read again
+WrSigFailures(ev) ==
+  LET b == [ev.b EXCEPT !.hassigs = TRUE, !.sigs = SigSection(ev.sigrec)] IN
+  (IF ~ev.werr /\ ev.file = SpecWrite(b) THEN {} ELSE {"the file is not the specified serialization of the bundle with its signatures section"})
+  \cup (IF ev.verdict = "ok" /\ ev.hassigs2 /\ ev.sigrec2 = ev.sigrec THEN {} ELSE {"the signatures section read back is not the one written"})
+  \cup (IF ev.verdict = "ok" /\ ev.b2.ver = b.ver /\ ev.b2.primary = b.primary /\ [i \in 1..Len(ev.b2.exs) |-> ExCanon(ev.b2.exs[i])] = ExpectedRead(b) THEN {}
+        ELSE {"version / primary URL / exchanges read back are not the ones written"})
+  \cup (IF ev.file2 = ev.file /\ ev.file3 = ev.file THEN {} ELSE {"write/read does not reach a byte-identical fixpoint"})
+
 Failures(ev) ==
+  IF ev.kind = "wrsig" THEN WrSigFailures(ev) ELSE
   LET sigs == ev.sigs  ver == ev.ver  t == ev.t
       vok == VerifierOk(sigs, t, ver)
       signed == { <<ev.signed[i].cert, ev.signed[i].msg>> : i \in 1..Len(ev.signed) }
